@@ -133,15 +133,15 @@ pub enum Token {
 
 impl Token {
     pub fn width(&self) -> usize {
-        self.to_string().len()
+        self.to_string().chars().count()
     }
 
     /// Number of line breaks in the text of this token, and the width of its last line.
     pub fn extent(&self) -> (usize, usize) {
         let text = self.to_string();
         match text.rfind('\n') {
-            Some(idx) => (text.matches('\n').count(), text.len() - idx - 1),
-            None => (0, text.len()),
+            Some(idx) => (text.matches('\n').count(), text[idx + 1..].chars().count()),
+            None => (0, text.chars().count()),
         }
     }
 
